@@ -19,7 +19,37 @@ const retDelete = "(*internal/api.RetentionHandler).deleteOldFiles"
 // test hold, where max derives from getFileMaxTimeAndRowCount and cutoff from
 // the function's cutoff parameter? Returns "strict", "nonstrict" or "".
 func c11TimeGuard(fn *ssa.Function, in ssa.Instruction, cutoffParam string) (kind string, detail string) {
-	isMax := func(v ssa.Value) bool {
+	// the compared value must come from the file's MAX(time) on EVERY path: a phi (or a cell) one of whose
+	// inputs is computed some other way — a partition end derived from the path, say — is not the file's maximum
+	var isMax func(v ssa.Value) bool
+	seenMax := map[ssa.Value]bool{}
+	isMax = func(v ssa.Value) bool {
+		switch x := v.(type) {
+		case *ssa.Phi:
+			if seenMax[v] {
+				return true
+			}
+			seenMax[v] = true
+			for _, e := range x.Edges {
+				if !isMax(e) {
+					return false
+				}
+			}
+			return true
+		case *ssa.UnOp:
+			if a, ok := x.X.(*ssa.Alloc); ok && x.Op == token.MUL {
+				n := 0
+				for _, r := range *a.Referrers() {
+					if st, ok := r.(*ssa.Store); ok && st.Addr == ssa.Value(a) {
+						n++
+						if !isMax(st.Val) {
+							return false
+						}
+					}
+				}
+				return n > 0
+			}
+		}
 		return derives(v, isResultOf("(*internal/api.RetentionHandler).getFileMaxTimeAndRowCount"), true, 6)
 	}
 	isCut := func(v ssa.Value) bool {
